@@ -17,7 +17,6 @@ import (
 	"github.com/form3tech-oss/f1/v2/internal/envsettings"
 	"github.com/form3tech-oss/f1/v2/internal/metrics"
 	"github.com/form3tech-oss/f1/v2/internal/options"
-	"github.com/form3tech-oss/f1/v2/internal/run"
 	"github.com/form3tech-oss/f1/v2/internal/trigger/api"
 	"github.com/form3tech-oss/f1/v2/internal/trigger/constant"
 	"github.com/form3tech-oss/f1/v2/internal/trigger/file"
@@ -404,7 +403,7 @@ func c14RunTrigger(o *core.Outcome, trig *api.Trigger, conc int, desc string, r 
 	l := engine.NewLog()
 	m := metrics.NewInstance(prometheus.NewRegistry(), false, nil)
 	maxDur := time.Duration(30+r.IntN(30)) * time.Millisecond
-	fr, err := run.NewRun(options.RunOptions{Scenario: "verifScenario", MaxDuration: maxDur, Concurrency: conc, IgnoreDropped: true, MaxIterations: 2000},
+	fr, err := engine.NewRun(options.RunOptions{Scenario: "verifScenario", MaxDuration: maxDur, Concurrency: conc, IgnoreDropped: true, MaxIterations: 2000},
 		sc, trig, 200*time.Millisecond, envsettings.Settings{Log: envsettings.Log{FilePath: "/dev/null"}}, m, engine.NewOutput(l, false))
 	if err != nil {
 		o.Violate("run-new:"+desc, "NewRun failed for an accepted trigger: %v", err)
